@@ -5,7 +5,7 @@ from .. import spec
 from ..absint import Explorer, UNKNOWN
 from ..astutil import norm, const, NO, compare, tail, names
 from ..index import AnalysisError, walk_own
-from .common import (site, key, calls_to, method_calls, nodes_with, guard_check, stores_to_name, cfg_attr, len_atom)
+from .common import (site, key, calls_to, method_calls, nodes_with, guard_check, stores_to_name, cfg_attr, len_atom, through_locals)
 from .c06 import is_read_call
 
 MSG = "gunicorn.http.message"
@@ -211,8 +211,8 @@ def r3(ctx):
             n += 1
             caps = []
             for st in [x for x in ast.walk(w) if isinstance(x, ast.If)]:
-                txt = norm(st.test)
-                measures = "len(" in txt or ".tell()" in txt
+                measures = any(isinstance(x, ast.Call) and ((isinstance(x.func, ast.Name) and x.func.id == "len") or (isinstance(x.func, ast.Attribute) and x.func.attr == "tell"))
+                               for x in through_locals(f, st.test))
                 bound = [x for x in ast.walk(st.test) if (isinstance(x, ast.Attribute) and ("limit" in x.attr or "max_" in x.attr)) or (isinstance(x, ast.Name) and x.id in f.params and "limit" in x.id)]
                 cmp_ok = any(isinstance(x, ast.Compare) and any(isinstance(o, (ast.Gt, ast.GtE)) for o in x.ops) for x in ast.walk(st.test))
                 if measures and bound and cmp_ok and st.body and isinstance(st.body[-1], ast.Raise):
